@@ -42,7 +42,7 @@ def main_queue(v, prop, seed, n):
         if rc in (70, 71):
             v.violation("main queue: %s: %s" % ("crash" if rc == 70 else "hang (an item or a synchronous caller was stranded)", err.strip()[-300:]),
                         save_replay(prop, "mainq_fail_%d.ndjson" % i, src=tr) if os.path.exists(tr) else tr)
-        elif rc == 2 and any(f[0] in (prop, "C01", "C05") for f in fails):
+        elif rc == 2 and any(f[0] in ((prop, "C01", "C05", "C03") if prop != "C18" else ("C18",)) for f in fails):
             v.violation("main queue API oracle: %s" % "; ".join("%s %s" % f for f in fails[:3]), save_replay(prop, "mainq_oracle_%d.ndjson" % i, src=tr))
         elif rc not in (0, 2):
             raise Broken("drv_mainq failed rc=%d: %s" % (rc, err[-500:]))
